@@ -460,11 +460,23 @@ class PVLEncoder(object):
         """Returns true if *s* must be quoted according to this
         encoder's grammar, false otherwise.
         """
+        if len(s) == 0:
+            return True
+
         if any(c in self.grammar.whitespace for c in s):
             return True
 
-        if s in self.grammar.reserved_keywords:
-            return True
+        # Keywords are matched case-insensitively when read, so a string
+        # that spells one in any letter case has to be quoted.
+        folded = s.casefold()
+        for kw in (
+            self.grammar.none_keyword,
+            self.grammar.true_keyword,
+            self.grammar.false_keyword,
+            *self.grammar.reserved_keywords,
+        ):
+            if folded == kw.casefold():
+                return True
 
         tok = Token(s, grammar=self.grammar, decoder=self.decoder)
         return not tok.is_unquoted_string()
@@ -632,11 +644,16 @@ class ODLEncoder(PVLEncoder):
             return False
 
     def needs_quotes(self, s: str) -> bool:
-        """Return true if *s* is an ODL Identifier, false otherwise.
+        """Return false if *s* is an ODL Identifier that would be read
+        back as the same string, true otherwise.
 
-        Overrides parent function.
+        Extends parent function.
         """
-        return not self.decoder.is_identifier(s)
+        if not self.decoder.is_identifier(s):
+            return True
+
+        # Identifiers that spell a keyword or a number must be quoted, too.
+        return super().needs_quotes(s)
 
     def is_assignment_statement(self, s) -> bool:
         """Returns true if *s* is an ODL Assignment Statement, false otherwise.
@@ -752,7 +769,7 @@ class ODLEncoder(PVLEncoder):
         """Extends parent function by appropriately quoting Symbol
         Strings.
         """
-        if self.decoder.is_identifier(value):
+        if not self.needs_quotes(value):
             return value
         elif self.is_symbol(value):
             return "'" + value + "'"
@@ -1074,7 +1091,7 @@ class PDSLabelEncoder(ODLEncoder):
         which typically means that they are double-quoted and not
         single-quoted.
         """
-        if self.decoder.is_identifier(value):
+        if not self.needs_quotes(value):
             return value
         elif self.is_symbol(value) and self.symbol_single_quote:
             return "'" + value + "'"
